@@ -61,6 +61,10 @@ def cases(tier, seed):
     for fmt in ('json', 'text'):
         for th in (1, 2):
             cs.append({'kind': 'seq', 'targets': ['good-only', 'good-only', 'warn-only'], 'threads': th, 'fmt': fmt})
+    # two targets whose identification lines look the same once shown (one of them has a replaced character and is flagged): neither verdict may leak to the other
+    for i, tg in enumerate([['twin-plain', 'twin-nonascii'], ['twin-nonascii', 'twin-plain'], ['twin-nonascii', 'twin-plain', 'twin-nonascii']]):
+        for th in ((1, 2) if tier == 'thorough' else ([1, 2][i % 2],)):
+            cs.append({'kind': 'seq', 'targets': tg, 'threads': th, 'fmt': ['text', 'json'][i % 2]})
     # the same server listed twice (same line again, around another target)
     for i, (a, b) in enumerate([('clean', 'rsa1024'), ('terrapin', 'clean'), ('gex1024', 'openssh-new')] if tier == 'quick' else list(itertools.permutations(['clean', 'rsa1024', 'terrapin', 'gex1024'], 2))):
         for th in (1, 2):
